@@ -3,6 +3,7 @@ package simio
 import (
 	"errors"
 	"io"
+	"sync/atomic"
 
 	"verifsim/sim/core"
 )
@@ -23,11 +24,25 @@ type SimPipe struct {
 	Writes   int
 	Chunks   []int // sizes delivered to the reader
 	Total    int
+	foreign  int32
 }
 
 var ErrClosedPipe = errors.New("simio: write on closed pipe")
 
+// ErrForeign is what a goroutine gets that is not one of the two simulated
+// tasks (a goroutine the code under test started for its I/O): it cannot take
+// part in a schedule the simulator decides. The engine notices (ForeignUse)
+// and repeats the round trip without a scheduler.
+var ErrForeign = errors.New("simio: pipe used from a goroutine the simulator does not own")
+
+// ForeignUse reports whether ErrForeign was ever returned.
+func (p *SimPipe) ForeignUse() bool { return atomic.LoadInt32(&p.foreign) != 0 }
+
 func (p *SimPipe) Write(b []byte) (int, error) {
+	if p.S.Foreign() {
+		atomic.StoreInt32(&p.foreign, 1)
+		return 0, ErrForeign
+	}
 	p.Writes++
 	n := 0
 	for len(b) > 0 {
@@ -63,6 +78,10 @@ func (p *SimPipe) CloseWithError(err error) error {
 func (p *SimPipe) CloseRead() { p.rdClosed = true }
 
 func (p *SimPipe) Read(b []byte) (int, error) {
+	if p.S.Foreign() {
+		atomic.StoreInt32(&p.foreign, 1)
+		return 0, ErrForeign
+	}
 	p.Reads++
 	if len(b) == 0 {
 		return 0, nil
@@ -79,5 +98,27 @@ func (p *SimPipe) Read(b []byte) (int, error) {
 	p.Chunks = append(p.Chunks, n)
 	p.Total += n
 	p.S.Yield(-1)
+	return n, nil
+}
+
+// ChunkReader hands out b in reads of at most N bytes (the scheduler-free
+// stand-in for the pipe).
+type ChunkReader struct {
+	B      []byte
+	N      int
+	Chunks []int
+}
+
+func (r *ChunkReader) Read(p []byte) (int, error) {
+	if len(r.B) == 0 {
+		return 0, io.EOF
+	}
+	n := len(p)
+	if r.N > 0 && n > r.N {
+		n = r.N
+	}
+	n = copy(p[:n], r.B)
+	r.B = r.B[n:]
+	r.Chunks = append(r.Chunks, n)
 	return n, nil
 }
